@@ -4,9 +4,7 @@
      1 subselect-in-graph-var : a sub-select occurs inside GRAPH ?var
      2 undef-filter-sibling   : a FILTER / BIND argument of a group mentions a variable its own group does not
                                 certainly bind while a pattern joined before that group (or the enclosing GRAPH ?var) may bind it
-     3 bind-target-sibling    : a BIND target may already be bound by a pattern joined before the BIND's group
-     4 not-of-error           : a FILTER contains `!` over a sub-expression mentioning a variable its group does not certainly bind
-     5 bind-arg-unbound       : a BIND argument is a variable the part of the group before the BIND does not certainly bind
+   (the former classes 3 bind-target-sibling, 4 not-of-error, 5 bind-arg-unbound were repaired by 1fdcd07 / 56f413c)
    `wellscoped`: FILTER / BIND expressions only mention variables in scope of their own group (the property's quantifier). *)
 Require Import KV.Sparql.Base KV.Sparql.Syntax KV.Sparql.Algebra KV.Sparql.Engine KV.Sparql.PlanEquiv KV.Sparql.Sem.
 
@@ -60,16 +58,9 @@ Fixpoint pscope (p : pat) {struct p} : list var * list var :=
       end
   end.
 
-Fixpoint has_not_over (e : expr) (bad : list var) : bool :=
-  match e with
-  | ECmp _ _ _ => false
-  | ENot a => existsb (fun v => mem_var v bad) (expr_vars a) || has_not_over a bad
-  | EAnd a b | EOr a b => has_not_over a bad || has_not_over b bad
-  end.
-
 Definition minus_v (a b : list var) : list var := filter (fun x => negb (mem_var x b)) a.
 
-(* classes hit (codes 1..5, with repetitions) and wellscopedness *)
+(* classes hit (codes 1..2, with repetitions) and wellscopedness *)
 Fixpoint classes (p : pat) (inb : list var) (uvg : bool) {struct p} : list N * bool :=
   match p with
   | PBgp _ | PValues _ _ => ([], true)
@@ -80,17 +71,14 @@ Fixpoint classes (p : pat) (inb : list var) (uvg : bool) {struct p} : list N * b
              fold_left (fun r f =>
                           let '(acc, ws) := r in
                           let vs := expr_vars f in
-                          (acc ++ (if existsb (fun v => negb (mem_var v cert) && mem_var v inb) vs then [2%N] else [])
-                               ++ (if has_not_over f (minus_v vs cert) then [4%N] else []),
+                          (acc ++ (if existsb (fun v => negb (mem_var v cert) && mem_var v inb) vs then [2%N] else []),
                            ws && subset_v vs poss)) fs (acc, ws)
          | e :: r =>
              match e with
              | PFilter f => go r cert poss (fs ++ [f]) acc ws
              | PBind args v =>
                  let avs := barg_vars args in
-                 let acc' := acc ++ (if subset_v avs cert then [] else [5%N])
-                                 ++ (if existsb (fun a => negb (mem_var a cert) && mem_var a inb) avs then [2%N] else [])
-                                 ++ (if mem_var v inb then [3%N] else []) in
+                 let acc' := acc ++ (if existsb (fun a => negb (mem_var a cert) && mem_var a inb) avs then [2%N] else []) in
                  let ws' := ws && subset_v avs poss && negb (mem_var v poss) in
                  let cert' := if subset_v avs cert && negb (mem_var v poss) then union_v cert [v] else cert in
                  go r cert' (union_v poss [v]) fs acc' ws'
@@ -115,9 +103,7 @@ Fixpoint classes (p : pat) (inb : list var) (uvg : bool) {struct p} : list N * b
   | PBind args v =>
       (* the group { BIND }: nothing precedes it *)
       let avs := barg_vars args in
-      ((if subset_v avs [] then [] else [5%N])
-         ++ (if existsb (fun a => mem_var a inb) avs then [2%N] else [])
-         ++ (if mem_var v inb then [3%N] else []),
+      ((if existsb (fun a => mem_var a inb) avs then [2%N] else []),
        subset_v avs [])
   | PSub s =>
       match s with
